@@ -73,6 +73,92 @@ pub fn families(focus: Focus) -> Vec<Box<dyn Family>> {
                 run_script(focus, &a, &b, &script, po, pn, out);
             },
         ),
+        family(
+            "scripts_long",
+            "long scripts: (a) an insertion / deletion next to a run of 1100..9000 identical items split into equal calls of random lengths (the clean-up must slide the edit across the whole run), (b) scripts with MORE than 65536 calls (delete(1) equal(1) repeated, then insert(1) equal(2)), (c) random-walk scripts of near-identical pairs of 300..3000 items",
+            false,
+            1,
+            |cfg| if cfg.tiny { 2 } else { cfg.tier.pick(24, 160) },
+            move |idx, cfg, out| {
+                let mut rng = Rng::for_case(cfg.seed, "c10.scripts_long", idx);
+                let kind = if cfg.tiny { idx % 2 } else { idx % 6 };
+                let (a, b, script): (Vec<u32>, Vec<u32>, Vec<Step>) = if kind == 1 && !cfg.tiny {
+                    // > 65536 calls
+                    let n = 33_000 + rng.below(3000);
+                    let mut a = Vec::with_capacity(2 * n + 2);
+                    let mut b = Vec::with_capacity(n + 3);
+                    let mut script = Vec::with_capacity(2 * n + 2);
+                    for i in 0..n {
+                        script.push(Step::Del(a.len(), 1, b.len()));
+                        a.push(1_000_000 + i as u32);
+                        script.push(Step::Eq(a.len(), b.len(), 1));
+                        a.push(5);
+                        b.push(5);
+                    }
+                    // an insertion that can slide down over two equal items
+                    script.push(Step::Ins(a.len(), b.len(), 1));
+                    b.push(7);
+                    script.push(Step::Eq(a.len(), b.len(), 2));
+                    a.extend_from_slice(&[7, 7]);
+                    b.extend_from_slice(&[7, 7]);
+                    (a, b, script)
+                } else if kind % 2 == 0 {
+                    // long run of identical items
+                    let run = if cfg.tiny { 5 } else { *rng.pick(&[1100usize, 2100, 4200, 9000]) };
+                    let x = 7u32;
+                    let mut a = vec![3u32];
+                    a.extend(std::iter::repeat(x).take(run));
+                    a.push(4);
+                    let mut b = a.clone();
+                    let at = 1 + rng.below(run + 1);
+                    let ins_len = 1 + rng.below(3);
+                    for _ in 0..ins_len {
+                        b.insert(at, x);
+                    }
+                    // script: equal up to `at` in random pieces, insert, equal rest in random pieces
+                    let mut script = Vec::new();
+                    let (mut i, mut j) = (0usize, 0usize);
+                    while i < at {
+                        let l = (1 + rng.below(700)).min(at - i);
+                        script.push(Step::Eq(i, j, l));
+                        i += l;
+                        j += l;
+                    }
+                    script.push(Step::Ins(i, j, ins_len));
+                    j += ins_len;
+                    while i < a.len() {
+                        let l = (1 + rng.below(700)).min(a.len() - i);
+                        script.push(Step::Eq(i, j, l));
+                        i += l;
+                        j += l;
+                    }
+                    if rng.chance(1, 2) {
+                        // the mirrored deletion
+                        let flipped: Vec<Step> = script
+                            .iter()
+                            .map(|s| match *s {
+                                Step::Eq(o, n, l) => Step::Eq(n, o, l),
+                                Step::Ins(o, n, l) => Step::Del(n, l, o),
+                                Step::Del(o, l, n) => Step::Ins(n, o, l),
+                            })
+                            .collect();
+                        (b, a, flipped)
+                    } else {
+                        (a, b, script)
+                    }
+                } else {
+                    let (a, b) = gen::big_pair(&mut rng, if cfg.tiny { 5 } else { 300 }, if cfg.tiny { 9 } else { 3000 });
+                    let script = gen::rand_script(&mut rng, &a, &b);
+                    (a, b, script)
+                };
+                out.sample(|| format!("N={} M={} script of {} calls", a.len(), b.len(), script.len()));
+                out.count("long_scripts");
+                if script.len() > 65_536 {
+                    out.count("scripts_with_more_than_65536_calls");
+                }
+                run_script(focus, &a, &b, &script, 0, 0, out);
+            },
+        ),
     ]
 }
 
